@@ -279,12 +279,14 @@ class InterpolatedLinearOperator(LinearOperator):
         n_right_rows = self.right_interp_indices.size(-2)
         n_left_interp = self.left_interp_indices.size(-1)
         n_right_interp = self.right_interp_indices.size(-1)
-        n_inducing = right_res.size(-2)
 
         # left_interp_values grad
         right_interp_right_res = self.base_linear_op._matmul(right_res).contiguous()
         batch_shape = torch.Size(right_interp_right_res.shape[:-2])
         batch_size = batch_shape.numel()
+        # (the left interpolation indexes the rows of the base operator, the right one its columns:
+        # the two sizes differ for a rectangular base operator)
+        n_inducing = right_interp_right_res.size(-2)
         if len(batch_shape):
             batch_offset = torch.arange(0, batch_size, dtype=torch.long, device=self.device).view(*batch_shape)
             batch_offset.unsqueeze_(-1).unsqueeze_(-1).mul_(n_inducing)
@@ -302,6 +304,7 @@ class InterpolatedLinearOperator(LinearOperator):
         left_interp_left_res = self.base_linear_op._t_matmul(left_res).contiguous()
         batch_shape = left_interp_left_res.shape[:-2]
         batch_size = batch_shape.numel()
+        n_inducing = left_interp_left_res.size(-2)
         if len(batch_shape):
             batch_offset = torch.arange(0, batch_size, dtype=torch.long, device=self.device).view(*batch_shape)
             batch_offset.unsqueeze_(-1).unsqueeze_(-1).mul_(n_inducing)
